@@ -10,9 +10,10 @@ Model for C24.  Core Lean only.
   CPython's `sum / term / factor / power` rules when instantiated with `pyTbl`).  `rlvl` is the
   level at which the right operand of a binary operator is parsed: `lvl + 1` for the
   left-associative operators, `lvl` itself for `**`, whose right operand may also be a signed factor.
-* printers: `prCur` — what `SympyGenerator.exitExpression` writes in the tree as committed (operands
-  are pasted without parentheses); `prFix` — the printer with proposed fix C24-1 (operands that are
-  operator expressions are parenthesised); `prMin` — minimal parentheses for a table.
+* printers: `prFix` — what `SympyGenerator.exitExpression` writes since fix C24-1 (/repo commit
+  36439d5: operands that are operator expressions are parenthesised); `prCur` — the printer before
+  that fix (operands pasted without parentheses; kept as the documented defect and regression
+  reference); `prMin` — minimal parentheses for a table.
 -/
 namespace PymocaVerif.PyGrammar
 
@@ -125,7 +126,7 @@ def E.compound : E → Bool
 
 def wrapIf (b : Bool) (ts : List Tok) : List Tok := if b then Tok.lp :: ts ++ [Tok.rp] else ts
 
-/-- `SympyGenerator.exitExpression` / `exitPrimary` / `exitComponentRef` as committed:
+/-- `SympyGenerator.exitExpression` / `exitPrimary` / `exitComponentRef` before fix C24-1:
     `"{left} {op} {right}"`, `"{op} {expr}"`, `"{name}({arg})"`, `"({var}).diff(self.t)"`. -/
 def prCur : E → List Tok
   | E.atom a => [Tok.atom a]
@@ -134,8 +135,8 @@ def prCur : E → List Tok
   | E.call g e => Tok.fn g :: Tok.lp :: prCur e ++ [Tok.rp]
   | E.der e => Tok.lp :: prCur e ++ [Tok.rp, Tok.diff]
 
-/-- The printer with proposed fix C24-1: an operand that is itself an operator expression is
-    parenthesised. -/
+/-- The printer of the current tree (fix C24-1, `operand_src`): an operand that is itself an
+    arithmetic operator expression is parenthesised; calls, `der` and atoms are not. -/
 def prFix : E → List Tok
   | E.atom a => [Tok.atom a]
   | E.bin o l r => wrapIf l.compound (prFix l) ++ Tok.bop o :: wrapIf r.compound (prFix r)
@@ -162,8 +163,6 @@ def prExtra (T : Tbl) : Nat → Nat → E → List Tok
       | E.bin o _ _ => !(decide (p ≤ T.lvl o))
       | E.pre q _ => !(decide (p ≤ T.plvl q))
       | _ => false
-    -- a redundant pair directly before `.diff(self.t)` would read as a second derivative only if the
-    -- node is not itself a `der`; parentheses around a `der` node are always safe
     if need || (s % 7 == 3) then Tok.lp :: body ++ [Tok.rp] else body
 
 /-- Natural precedence form: printing without any parentheses is a legal printing. -/
